@@ -133,6 +133,8 @@ func (f *Fragment) GetFullSamples(trex *TrexBox) ([]FullSample, error) {
 	if traf.Tfdt != nil {
 		baseTime = traf.Tfdt.BaseMediaDecodeTime()
 	}
+	firstRun := true
+	var prevRunEnd uint64 // absolute position of the first byte after the data of the previous trun
 	moofStartPos := moof.StartPos
 	var samples []FullSample
 	for _, trun := range traf.Truns {
@@ -146,7 +148,12 @@ func (f *Fragment) GetFullSamples(trex *TrexBox) ([]FullSample, error) {
 		}
 		if trun.HasDataOffset() {
 			baseOffset = uint64(int64(trun.DataOffset) + int64(baseOffset))
+		} else if !firstRun {
+			// Section 8.8.8.1: without data offset, the data of a run follows the data of the previous run
+			baseOffset = prevRunEnd
 		}
+		firstRun = false
+		prevRunEnd = baseOffset + trun.SizeOfData()
 		mdatDataLength := uint64(len(mdat.Data)) // len should be fine for 64-bit
 		var offsetInMdat uint64
 		if baseOffset > 0 {
